@@ -1,3 +1,24 @@
+import re
+
+
+def p_h1(case, rec, exp):
+    """C18-H1: only the fixed table of Go-value wrappers (kind hosteq), and only the observation
+    'SameAs holds but the hashes differ' on exactly the wrapper pairs (0,1) and (3,4) of that table."""
+    if not isinstance(case, dict) or case.get("kind") != "hosteq":
+        return False
+    m = re.search(r"same_but_hash_differs=\[([^\]]*)\]", rec.get("obs") or "")
+    return bool(m) and sorted(m.group(1).split()) == ["0,1", "1,0", "3,4", "4,3"] and "same=10 " in rec["obs"]
+
+
+def candidates(case):
+    import vcheck
+    if isinstance(case, dict) and isinstance(case.get("keys"), list) and len(case["keys"]) > 1:
+        ks = case["keys"]
+        out = [dict(case, keys=ks[: len(ks) // 2]), dict(case, keys=ks[len(ks) // 2:])] if len(ks) >= 4 else []
+        return out + [dict(case, keys=ks[:i] + ks[i + 1:]) for i in range(len(ks))]
+    return vcheck.default_candidates(case)
+
+
 CFG = {
     "id": "C18",
     "harness": "c18",
@@ -11,9 +32,15 @@ CFG = {
              "SameValueZero key classes with differently-produced variants, up to 3 live iterators, on four surfaces "
              "(raw orderedMap hook, JS Map, JS Set, symbol-property table), followed by draining every iterator and a "
              "full dump (Go Export for Map/Set); non-trivial = a delete or clear happened while an iterator was live; "
+             "about 1 case in 40 is a hash-agreement case instead: all variants of 2..4 classes, every ordered pair: "
+             "SameAs as given, SameAs and hash equality of the keys as orderedMap.set stores them, plus each value's "
+             "internal representation; non-trivial = two differently represented values were SameAs; "
              "distinct = by hash of the case"),
     "theorem_names": ["om_refines", "om_size_live", "siter_next_some", "siter_next_none", "sdata_positions_stable",
-                      "sdata_keys_unique"],
+                      "sdata_keys_unique", "hash_respects_svz", "goja_same_is_svz", "om_refines_js",
+                      "symtab_same_structure", "symtab_ownkeys_order"],
+    "candidates": candidates,
+    "predicates": {"C18.host_wrapper_hash_by_address": p_h1},
     "allowed_axioms": [],
     "trusted_base": [
         "Coq 8.16.1 kernel + vm_compute (no native_compute); theorems closed under the global context (no axioms)",
